@@ -248,6 +248,19 @@ func (h *handler1) handleClientPublish(ctx context.Context, snPublish *snPkts1.P
 		}
 	case snPkts1.TIT_SHORT:
 		topic = snPkts.DecodeShortTopic(snPublish.TopicID)
+	default:
+		return fmt.Errorf("invalid topic id type %d", snPublish.TopicIDType)
+	}
+	// Do not forward anything which is not a valid MQTT PUBLISH: the MQTT
+	// broker would close the connection.
+	if hasWildcard(topic) {
+		return fmt.Errorf("wildcard in PUBLISH topic name %#v", topic)
+	}
+	if mqPublish.Qos == 0 && mqPublish.Dup {
+		return errors.New("DUP flag set in QoS 0 PUBLISH")
+	}
+	if mqPublish.Qos > 0 && msgID == 0 {
+		return errors.New("zero MsgID in QoS 1/2 PUBLISH")
 	}
 	if snPublish.QOS == 1 {
 		h.transactions.Store(msgID, newClientPublishQOS1Transaction(ctx, h, msgID, snPublish.TopicID))
